@@ -1,7 +1,7 @@
 #!/bin/bash
 # usage: eval_seeded.sh [id ...]   runs, for every listed (default: all) seeded change, the checks named in seeded/catalogue.tsv against a
 # scratch copy of /repo with the change applied, and records the outcome in seeded/<id>/result.txt
-cd /verif
+cd "$(dirname "$0")/.."
 while IFS=$'\t' read -r id prop checks needs; do
   [ -z "$id" ] && continue
   if [ $# -gt 0 ]; then case " $* " in *" $id "*) ;; *) continue;; esac; fi
